@@ -102,6 +102,20 @@ class CaseWalker:
             return None
         return True if (v == NZ or v) else False
 
+    def simp(self, e, case):
+        """e with every `c ? a : b` whose condition the case decides replaced by the chosen operand"""
+        if isinstance(e, list):
+            return [self.simp(x, case) for x in e]
+        if not isinstance(e, dict):
+            return e
+        if e.get('k') == 'cond':
+            t = self.truth(e.get('c'), case)
+            if t is not None:
+                return self.simp(e.get('a') if t else e.get('b'), case)
+        if not any(x.get('k') == 'cond' for x in walk(e)):
+            return e
+        return {k: (self.simp(v, case) if isinstance(v, (dict, list)) and k not in ('owner', 'fta', 'ta', 'elem_of') else v) for k, v in e.items()}
+
     # ---- walking
     def paths(self, func, case, depth=0):
         r = Renderer(func, inline_locals=True)
@@ -133,7 +147,7 @@ class CaseWalker:
                         run([body], 0, c2, evc + ([('cond', r.r(st.get('cond')), b)] if t is None else []), nxt)
             elif k == 'return':
                 e2 = ev + (self._expr_events(st.get('e'), func, r, case, depth) if st.get('e') is not None else [])
-                e2 = e2 + [('return', r.r(st.get('e')) if st.get('e') is not None else None)]
+                e2 = e2 + [('return', r.r(self.simp(st.get('e'), case)) if st.get('e') is not None else None)]
                 self._n += 1
                 out.append(e2)
             elif k in ('assert',):
@@ -280,7 +294,7 @@ class CaseWalker:
             if k == 'assign':
                 p = field_path(n.get('lhs'))
                 if p is not None:
-                    ev.append(('assign', r.r(n['lhs']), n.get('op'), r.r(n.get('rhs')), p[1], const_value(n.get('rhs'))))
+                    ev.append(('assign', r.r(n['lhs']), n.get('op'), r.r(self.simp(n.get('rhs'), case)), p[1], const_value(n.get('rhs'))))
             elif k == 'un' and n.get('op') in ('++', '--', 'post++', 'post--'):
                 p = field_path(n.get('e'))
                 if p is not None:
